@@ -144,7 +144,14 @@ def run_history(seed, res, env, steps):
         parent = rnd.choice(classes)
         if depth[parent] >= 4:
             continue
-        cls = type("U%d_%d" % (seed % 100000, i), (parent,), {})
+        # (some subclasses also inherit from a plain, non-style mixin -- listed first or last:
+        #  "nearest class in its ancestry" is about the MRO, not about ``__base__``)
+        mix = rnd.random()
+        bases = (parent,)
+        if mix < 0.3:
+            mixin = type("Mixin%d_%d" % (seed % 100000, i), (), {"extra": i})
+            bases = (mixin, parent) if mix < 0.2 else (parent, mixin)
+        cls = type("U%d_%d" % (seed % 100000, i), bases, {})
         depth[cls] = depth[parent] + 1
         shape.append(classes.index(parent))
         classes.append(cls)
